@@ -28,7 +28,7 @@ os.environ.setdefault("OMP_NUM_THREADS", "1")
 
 def _worker_init():
     sys.path.insert(0, HERE)
-    sys.path.insert(0, "/repo")
+    sys.path.insert(0, os.environ.get("VERIF_REPO", "/repo"))
     from vcgen import prims
 
     prims.install_kernels()
@@ -89,7 +89,7 @@ def main(argv=None):
         os.environ.setdefault("VC_IDENTITY_TIMEOUT", "60")
     seed = int(os.environ.get("VERIF_SEED", "0"))
     t0 = time.time()
-    sys.path.insert(0, "/repo")
+    sys.path.insert(0, os.environ.get("VERIF_REPO", "/repo"))
 
     if args.replay:
         from vcgen import prims
